@@ -99,6 +99,12 @@ def parseCall (c : Json) (useProp : Bool) : Call :=
     md := (arrD c "md_keys").filterMap parseMdKey
     extraAdvice := (obj? c "advice_identity").isSome }
 
+/-- content shape: is the (advice) identity an object without members? -/
+def emptyObj (c : Json) (k : String) : Bool :=
+  match c.getObjVal? k with
+  | .ok (.obj m) => m.isEmpty
+  | _ => false
+
 /-- The recipient's side of the case: configuration, clock, outstanding request; the issued content. -/
 def parseInput (c : Json) (useProp : Bool := false) : Input :=
   let sp := (obj? c "sp").getD (Json.mkObj [])
@@ -111,6 +117,8 @@ def parseInput (c : Json) (useProp : Bool := false) : Input :=
   let solicited := boolD sp "solicited" true
   { call := parseCall c useProp
     ecp := parseEntry c == .ecp
+    identityEmpty := emptyObj c "identity"
+    adviceIdentityEmpty := emptyObj c "advice_identity"
     rc := { explicitKeys := (strList sp "explicit_keys").map keyId, configured := (strList sp "enc_keys").map keyId }
     tamper := (str? c "tamper").isSome
     cfg := { wantResp := (bool? sp "want_resp").getD (boolD d "want_response_signed"),
